@@ -50,6 +50,13 @@ def tasks(tier, seed):
                               {'memory', 'uncaught_exception', 'terminate', 'deadlock', 'hang', 'leak'}, in_cs=True, child_first=True,
                               extra_defs='#undef EARLY_CLOSE_AFTER\n#define EARLY_CLOSE_AFTER %d\n' % ec, nobj=3,
                               cfgs=([(0, 40, 0), (0, 7, 0)] if ec == 0 else [(0, 40, 0)]) if tier == 'quick' else None)
+    # sessions without any object: open(out) / open(in) followed directly by close or destruction (C13's history harness)
+    import c13
+    for t in c13.tasks('quick', seed)[0]:
+        if t.tid in ('hist.open3.close6', 'hist.open3.destroy7', 'hist.open2.close6'):
+            t.tid = 'empty_session.' + t.tid
+            t.kinds = {'deadlock', 'hang', 'uncaught_exception', 'terminate', 'memory'}
+            ts.append(t)
     # lemma of the monitor reduction: no lost wake-up in the stream (every consumer operation that frees buffer space
     # notifies the waiting producer, every producer operation that makes data / the end available notifies the consumer)
     import c15
